@@ -26,7 +26,8 @@ Clauses(t) ==
      <<"same-point-structure", ~Has(t, "err") => t.structSame>>,
      <<"outline-within-one-unit", ~Has(t, "err") => t.outlineDiffMilli <= 1000>>,
      <<"advance-within-one-unit", ~Has(t, "err") => t.advDiff <= 1>>,
-     <<"compile-variable-protocol", ~Has(t, "err") => ProtocolOK(t)>>,
+     \* (records of compileVariableTTFs / CFF2s runs -- several variable fonts from one call -- carry no event list)
+     <<"compile-variable-protocol", (~Has(t, "err") /\ ~Has(t, "multi")) => ProtocolOK(t)>>,
      \* FeaPipeline!OnlyAdds observed on the Writer hook events (statement texts of the shared feature file)
      <<"writers-only-add", (~Has(t, "err") /\ Has(t, "writersOnlyAdd")) => t.writersOnlyAdd>> >>
 Init == i = 1
